@@ -1,25 +1,69 @@
-(* Proofs about Model/Sleep.v (property C19). *)
+(* Proofs about Model/Sleep.v (property C19), part 4: the property theorems, from the inductive
+   invariant [inv] (Proofs/SleepBaseP.v, SleepInvP.v, SleepInv2P.v). *)
 From Coq Require Import ZArith Bool List Arith Lia.
-From NP Require Import Model.Sleep.
+From NP Require Import Model.Sleep Model.SleepSpec Proofs.SleepBaseP Proofs.SleepInvP Proofs.SleepInv2P.
 Import ListNotations.
 
-(* the variant WITHOUT the second load of sharedList loses a wake-up: one waker, attached and
-   asserted by a completed Assert call, nobody in flight, and the sleeper parked for ever *)
-Definition lost_wakeup_state (st : state) : Prop :=
-  (exists c, pcs st 0 = PNwParked c) /\ wg st = GPark /\
-  (exists w, In w (allw st) /\ ws st w = WAst /\ In w (shared st)) /\
-  (forall t, t <> 0 -> pcs st t = PIdle /\ progs st t = []).
+(* states reachable from zero-valued Sleeper / Wakers under ANY client programs (any number of
+   threads) and ANY schedule *)
+Definition reachable (st : state) : Prop :=
+  exists ps sched evs, run (init ps) sched = Some (st, evs).
 
-Lemma no_recheck_refuted_lemma :
-  exists ps sched st evs,
-    run_gen false (init (progs_of_list ps)) sched = Some (st, evs) /\ lost_wakeup_state st.
+Lemma run_inv : forall sched st st' evs, inv st -> run st sched = Some (st', evs) -> inv st'.
 Proof.
-  exists [[OAdd 0 7%Z; OFetch true]; [OAssert 0]].
-  exists [0; 0; 0; 0; 0; 1; 1; 1; 1; 1; 1; 0; 0]%nat.
-  eexists. eexists. split.
-  - vm_compute. reflexivity.
-  - split; [eexists; reflexivity|]. split; [reflexivity|]. split.
-    + exists 0%nat. cbn. repeat split; auto.
-    + intros t Ht. destruct t as [|[|t]]; [congruence| |]; cbn; split; try reflexivity.
-      destruct t; reflexivity.
+  induction sched as [|t r IH]; intros st st' evs Hinv H; simpl in H.
+  - inversion H; subst. assumption.
+  - unfold run in *. simpl in H. destruct (step_gen true st t) as [[s1 e1]|] eqn:Hs; [|discriminate].
+    destruct (run_gen true s1 r) as [[s2 e2]|] eqn:Hr; [|discriminate]. inversion H; subst.
+    eapply IH; [|exact Hr]. eapply inv_step; eauto.
+Qed.
+
+Lemma reachable_inv : forall st, reachable st -> inv st.
+Proof. intros st [ps [sched [evs H]]]. eapply run_inv; [apply inv_init|exact H]. Qed.
+
+Lemma reachable_step : forall st t st' evs, reachable st -> step_ev st t = Some (st', evs) -> reachable st'.
+Proof.
+  intros st t st' evs [ps [sched [evs0 H]]] Hs. exists ps, (sched ++ [t]), (evs0 ++ evs).
+  revert H. generalize (init ps). unfold run. induction sched as [|a r IH]; intros s0 H; simpl in *.
+  - inversion H; subst. unfold step_ev in Hs. rewrite Hs. rewrite app_nil_r. reflexivity.
+  - destruct (step_gen true s0 a) as [[s1 e1]|]; [|discriminate].
+    destruct (run_gen true s1 r) as [[s2 e2]|] eqn:Hr; [|discriminate]. inversion H; subst.
+    rewrite (IH s1 eq_refl). rewrite app_assoc. reflexivity.
+Qed.
+
+(* ------------------------------------------------------------------ queued_once *)
+Lemma held_only_0 : forall st w, inv st -> heldb w (pc_of st 0) = false -> countp (heldb w) (pcs st) = 0.
+Proof.
+  intros st w Hinv H0. destruct (countp (heldb w) (pcs st)) eqn:E; [reflexivity|].
+  destruct (countp_exists (heldb w) (pcs st)) as [t [Ht Hh]]; [lia|].
+  assert (t = 0).
+  { apply (sleeper_is_0 _ st t Hinv). unfold pc_of. destruct (nth t (pcs st) PIdle); simpl in Hh; try discriminate. reflexivity. }
+  subst. unfold pc_of in H0. congruence.
+Qed.
+
+Lemma no_pusher : forall st w, countp (pusherb w) (pcs st) = 0 -> forall t, pusherb w (pc_of st t) = false.
+Proof.
+  intros st w H t. destruct (pusherb w (pc_of st t)) eqn:E; [|reflexivity].
+  destruct (Nat.lt_ge_cases t (length (pcs st))) as [Hlt|Hge].
+  - exfalso. eapply countp_zero; eauto.
+  - rewrite pc_of_out in E by lia. discriminate.
+Qed.
+
+Lemma queued_once_lemma : forall st, reachable st ->
+  NoDup (shared st ++ local st) /\
+  forall w, In w (shared st ++ local st) ->
+    ws st w <> WSlp /\ (forall t, pusherb w (pc_of st t) = false) /\ heldb w (pc_of st 0) = false.
+Proof.
+  intros st Hr. pose proof (reachable_inv st Hr) as Hinv. split.
+  - apply cnt_NoDup. intros w. pose proof (i_tok _ _ Hinv w) as Hw. unfold tok_ok, tok in Hw.
+    rewrite cnt_app. destruct (attb st w); intuition lia.
+  - intros w Hin. apply cnt_In in Hin. rewrite cnt_app in Hin.
+    pose proof (i_tok _ _ Hinv w) as Hw. unfold tok_ok, tok in Hw.
+    assert (Hs : ws st w <> WSlp /\ countp (heldb w) (pcs st) = 0 /\ countp (pusherb w) (pcs st) = 0).
+    { destruct (attb st w); intuition lia. }
+    destruct Hs as [Hs [Hh Hp]]. split; [assumption|]. split; [apply no_pusher; assumption|].
+    destruct (heldb w (pc_of st 0)) eqn:E; [|reflexivity].
+    exfalso. destruct (Nat.lt_ge_cases 0 (length (pcs st))).
+    + eapply (countp_zero (heldb w)); eauto.
+    + rewrite pc_of_out in E by lia. discriminate.
 Qed.
